@@ -12,9 +12,10 @@ CLAIM = {
           'inside the record), rle_lookup + index_data_record (frame number -> record position and offset, every record '
           'appended with its whole number of frames), index_lists_all (every dispatchable record listed at its position '
           'with type, kind and table name, in file order), setFrameSet_history_independent + setFrameSet_after_any_load, '
-          'extrapolate_rule_first/later, and kernel-evaluated witnesses (setFrameSet_values_witness, implied_x_witness_step1, '
+          'extrapolate_rule_first/later, setFrameSet_values_allchannels_single_partial (direct X, all channels, one data '
+          'record: every slice gives exactly the rows of the selected frames), and kernel-evaluated witnesses (setFrameSet_values_witness, implied_x_witness_step1, '
           'implied_x_f7_witness = the negation of the implied-X clause on the current code). The end-to-end statements '
-          '(setFrameSet_values, implied X for step 1) are not proved in general; they are covered by the correspondence of '
+          '(setFrameSet_values for several records / channel subsets, implied X for step 1) are not proved in general; they are covered by the correspondence of '
           'the model with the code on generated LIS files (index entries, loaded words, implied X vector, file operation '
           'trace, genEvents tuples) and by the property oracle evaluated on the implementation alone against the '
           'generator\'s ground truth. Proof + correspondence is the right level: the property quantifies over unbounded '
